@@ -146,6 +146,9 @@ def attribute(f, lines, hyp):
             f["cause"] = "result-type-widened"
         elif cons == "shr" and fb is not None and not refold_operand_extended(fold[0], f["signed"] == "true", f["n"]):
             f["cause"] = "refold-operand-not-extended"
+        elif cons in ("shr", "shl") and first != "covered":
+            # re-folding a constant that was produced outside the proved region (only its low n bits are right)
+            f["cause"] = first
         else:
             f["cause"] = "none"
 
@@ -192,20 +195,25 @@ def run(ctx):
     facts(ctx)
     quick = ctx.tier == "quick"
     if ctx.build_hx():
-        ops, out, meta = ctx.run_hx("mpa", 6000 if quick else 120000)
+        ops, out, meta = ctx.run_hx("mpa", 12000 if quick else 120000)
         ctx.absorb_meta(meta)
         ctx.correspond("exported mpa API (New, NewInt, Parse, SetTypeSize, Add..Xor, Lsh, Rsh, Cmp, Int64, BitLen, Bit, "
                        "Sign, String, Text) vs Model/Mpa.lean", ops, out)
         for line in open(ops, errors="replace"):
             ctx.distinct.add(hashlib.sha1(line.encode()).digest())
-        seeds = [ctx.seed + 100 * i for i in range(6 if quick else 12)]
-        fails = fold_runs(ctx, seeds, 110 if quick else 1500)
+        seeds = [ctx.seed + 100 * i for i in range(8 if quick else 12)]
+        fails = fold_runs(ctx, seeds, 150 if quick else 1500)
         ctx.fails.extend(fails)
         unknown = [f for f in fails if not ctx.is_known(f)]
         if (ctx.broken and not unknown) and quick:
             # widened search for a concrete failing input
             more = fold_runs(ctx, [ctx.seed + 7000 + i for i in range(6)], 300, tag="-widen")
             ctx.fails.extend(more)
+        # constants aliased by their value name: first registered type wins, later uses are re-widened
+        _, _, meta = ctx.run_hx("alias", 500 if quick else 6000)
+        ctx.absorb_meta(meta)
+        ctx.fails.extend(meta.get("fails_all") or [])
+        ctx.oblige("alias oracle ran", (meta.get("counters") or {}).get("alias_cases", 0) > 0, json.dumps(meta)[:500])
         causes = {}
         for f in ctx.fails:
             causes[f["sig"] + ":" + f.get("cause", "?")] = causes.get(f["sig"] + ":" + f.get("cause", "?"), 0) + 1
